@@ -420,6 +420,16 @@ func checkConnectPairing(r *Run, p *Prog) {
 		return
 	}
 	d := lits[0]
+	// a closure that only hands over to a package-local function is that function
+	if len(d.Body.List) == 1 {
+		if es, ok := d.Body.List[0].(*ast.ExprStmt); ok {
+			if call, ok := es.X.(*ast.CallExpr); ok {
+				if h := p.ByObj[CalleeFunc(d, call)]; h != nil && h.Body != nil && h.Pkg == d.Pkg {
+					d = h
+				}
+			}
+		}
+	}
 	c := p.CFG(d)
 	var goNode, discNode, waitNode *Point
 	for _, pt := range c.NodesWhere(func(ast.Node) bool { return true }) {
